@@ -134,6 +134,27 @@ class PackedHist : public Engine {
                 default: op.kind = "half"; op.set("i", idx); break;
                 }
             } else if (mode == "sorted") {
+                if (r.chance(1, 10)) {
+                    // sorted insert - positional delete - positional append of a value not below the
+                    // maximum - sorted insert again: the array is back at the length the last sorted
+                    // insert left it with, but with another tail (state a call may have kept about
+                    // "the array it grew last" is stale now)
+                    uint64_t a = val(), b = val();
+                    Op o1, o2, o3, o4;
+                    o1.kind = "insert_sorted";
+                    o1.set("v", a);
+                    o2.kind = "delete";
+                    o2.set("pos", r.chance(1, 2) ? cap - 1 : r.below(cap));
+                    o3.kind = "append_max";
+                    o3.set("v", b);
+                    o4.kind = "insert_sorted";
+                    o4.set("v", r.chance(1, 2) ? a : (r.chance(1, 2) ? b >> 1 : val()));
+                    p.ops.push_back(o1);
+                    p.ops.push_back(o2);
+                    p.ops.push_back(o3);
+                    p.ops.push_back(o4);
+                    continue;
+                }
                 switch (r.below(10)) {
                 case 0:
                 case 1:
@@ -292,11 +313,16 @@ class PackedHist : public Engine {
                     fail("footprint", why.str());
                     break;
                 }
-            } else if (k == "insert_sorted" || k == "insert") {
+            } else if (k == "insert_sorted" || k == "insert" || k == "append_max") {
                 if (len >= cap) continue;
                 uint64_t v = op.u("v") & maxv;
                 size_t pos;
-                if (k == "insert_sorted") {
+                if (k == "append_max") {
+                    // positional insert behind the last element of a value that keeps the array sorted
+                    if (len && model.back() > v) v = model.back();
+                    pos = len;
+                    c.insert(st.base(), (uint32_t)len, (uint32_t)pos, v);
+                } else if (k == "insert_sorted") {
                     if (mode != "sorted") continue;
                     pos = (size_t)(std::lower_bound(model.begin(), model.end(), v) - model.begin());
                     size_t nb = op.u("bytes") ? bytes_for_len(len, B) : 0;
